@@ -196,17 +196,36 @@ def register_loading2(reg):
 
 
 def _wrapper_closure(ex, st, made):
-  """The closure of _saving_wrapper: self, the wrapped user function and the decoration-time config values."""
+  """The closure of _saving_wrapper is produced by executing the real decorator save_and_restore(_func, **config_values)
+  on symbolic arguments; whatever it captures (self, _func, config_values, and anything a later version of the code
+  computes at decoration time) is what the wrapper sees.  Arbitrary configuration operations may happen between
+  decoration and the call of the wrapper: the pre-existing heap is havocked in between."""
   from pyvc.engine import VPyDict
-  from pyvc.values import VTuple, VCallable
+  from pyvc.values import VTuple, VFunc, Raised, Unsupported
+  from pyvc.opaque import havoc_preexisting
   self_ = ex.make_input(st, 'self', 'ref:_Configuration')
   func = ex.make_input(st, '_func', 'fn:wrapped_function')
   cfgv = ex.make_input(st, 'config_values', 'dict[str,val]')
-  st.assume(self_.t != 0)
-  made['$closure'] = {'self': self_, '_func': func, 'config_values': cfgv, '$module': ex.ctx.repo.module('openhtf.util.configuration')}
+  st.env = {'$module': ex.ctx.repo.module('openhtf.util.configuration')}
+  outer = ex.ctx.repo.func(C, '_Configuration.save_and_restore')
+  ex.call_stack.append(outer)       # not the unit root: callee contracts apply
+  try:
+    rs = ex.call_function(st, outer, [self_, func], {'$kwargs': cfgv})
+  finally:
+    ex.call_stack.pop()
+  rs = [(s, v) for s, v in rs if not isinstance(v, Raised)]
+  if len(rs) != 1 or not isinstance(rs[0][1], VFunc):
+    raise Unsupported('save_and_restore(f, **values) did not return a single wrapper function')
+  s, wrapper = rs[0]
+  for k in ('env', 'heap', 'pyheap', 'pc', 'next_oid', 'tags', 'ghost', 'ax'):
+    setattr(st, k, getattr(s, k))
+  havoc_preexisting(ex, st)
+  closure = dict(wrapper.closure)
+  made['$closure'] = closure
   made['args'] = VTuple([])
   made['kwargs'] = VPyDict({})
-  made['self'] = self_           # visible to the spec expressions
+  made['self'] = closure['self']         # visible to the spec expressions
+  made['config_values'] = closure['config_values']
 
 
 def _const_field(name):
